@@ -95,6 +95,9 @@ func NewPrivateKeyFromXML(xmlInput string, demo bool) (*PrivateKey, error) {
 	if err != nil {
 		return nil, err
 	}
+	if privk.P == nil || privk.Q == nil || privk.PPrime == nil || privk.QPrime == nil {
+		return nil, errors.New("private key lacks one of p, q, pPrime, qPrime")
+	}
 
 	if !demo {
 		// Do some sanity checks on the key data
@@ -276,6 +279,9 @@ func NewPublicKeyFromBytes(bts []byte) (*PublicKey, error) {
 	if err != nil {
 		return nil, err
 	}
+	if pubk.N == nil || pubk.Z == nil || pubk.S == nil || len(pubk.R) == 0 {
+		return nil, errors.New("public key lacks one of n, Z, S or the bases")
+	}
 	keylength := pubk.N.BitLen()
 	if sysparam, ok := DefaultSystemParameters[keylength]; ok {
 		pubk.Params = sysparam
@@ -299,22 +305,14 @@ func NewPublicKeyFromFile(filename string) (*PublicKey, error) {
 		return nil, err
 	}
 	defer common.Close(f)
-	pubk := &PublicKey{}
 
 	b, err := io.ReadAll(f)
 	if err != nil {
 		return nil, err
 	}
 
-	err = xml.Unmarshal(b, pubk)
-	if err != nil {
-		return nil, err
-	}
-	pubk.Params = DefaultSystemParameters[pubk.N.BitLen()]
-	if err = pubk.parseRevocationKey(); err != nil {
-		return nil, err
-	}
-	return pubk, nil
+	// same checks as for a key from memory: mandatory elements, supported modulus length
+	return NewPublicKeyFromBytes(b)
 }
 
 func (pubk *PublicKey) parseRevocationKey() error {
